@@ -250,6 +250,40 @@ def run(index, rep, tier):
                               "%s evaluates `%s` without ever testing `%s`: for the seed node (or a detached node) that is None, so removing the last remaining leaf - prune_taxa(all taxa), retain_taxa([]) - dies with AttributeError: 'NoneType' object has no attribute ... instead of completing or raising the documented SeedNodeDeletionException" % (f.qualname, norm(x)[:50], base))
         rep.floor("R03.8", "dereferences of a parent in the tree model", 15, nder)
 
+    # ---- R03.9 a node is the child of one node
+    with rep.section("R03.9"):
+        rep.rule("R03.9", "a node is the child of one node: Node.add_child / insert_child, which store `node._parent_node = self` directly, take the node out of its previous parent's child list first (the parent_node property setter does) - otherwise re-parenting without an explicit remove_child leaves the node under two parents")
+        npl = 0
+        for q in (NODE + ".add_child", NODE + ".insert_child"):
+            f = index.function(q)
+            g = cfg_of(f)
+            p_ = [x for x in f.params if x not in ("self", "index")]
+            if not p_:
+                raise AnalysisError("R03.9: %s: node parameter not recognised" % q)
+            nodep = p_[-1]
+            stores = [nd for nd in g.nodes if nd.kind == "stmt" and isinstance(nd.ast, ast.Assign) and norm(nd.ast.targets[0]) == nodep + "._parent_node" and norm(nd.ast.value) == "self"]
+            prop_store = [nd for nd in g.nodes if nd.kind == "stmt" and isinstance(nd.ast, ast.Assign) and norm(nd.ast.targets[0]) == nodep + ".parent_node"]
+            if not stores and not prop_store:
+                raise AnalysisError("R03.9: %s: parent link store not recognised" % q)
+            for st in stores:
+                npl += 1
+
+                def detaches(nd):
+                    for c in node_calls(nd):
+                        if call_name(c) == "remove" and "_child_nodes" in norm(c.func.value) and "_parent_node" in norm(c.func.value) and c.args and norm(c.args[0]) == nodep:
+                            return True
+                        if call_name(c) == "remove_child" and "_parent_node" in norm(c.func.value) or (call_name(c) == "remove_child" and "parent_node" in norm(c.func.value)):
+                            return True
+                        grade, cands = index.resolve_call(c, f)
+                        for k in cands:
+                            if hasattr(k, "node") and isinstance(k.node, ast.FunctionDef) and any(call_name(cc) == "remove" and "_child_nodes" in norm(cc.func.value) for cc in calls_in(k.node)) and norm(c.func.value) == nodep:
+                                return True
+                    return False
+                ok = g.dominated_by(st, detaches, follow_exc=False)
+                rep.check(ok, "R03.9", f.qualname, "parent link stored without detaching from the previous parent", fn_where(f, st.stmt), "%s detaches the node from its previous parent" % f.name,
+                          "%s stores `%s._parent_node = self` without removing the node from the child list of the parent it had: re-parenting a node that is still attached elsewhere (y.add_child(A) with A under x) leaves A among the children of BOTH nodes - every traversal then visits A twice and the tree is no longer an arborescence" % (f.qualname, nodep))
+        rep.floor("R03.9", "direct parent-link stores in add_child / insert_child", 2, npl)
+
 
 def _pairing(rep, fi):
     cfg = cfg_of(fi)
